@@ -1,9 +1,13 @@
 use fbrv::args::Args;
-use fbrv::engines::{transport_eng, vfs_eng, wire_eng};
+use fbrv::engines::{ptfs_eng, transport_eng, vfs_eng, wire_eng};
 
 fn main() {
     let args = Args::parse();
     fbrv::env::quiet_panics();
+    if args.prop == "P-debug" {
+        ptfs_eng::debug_timing();
+        return;
+    }
     if args.prop == "T-debug" {
         transport_eng::debug();
         return;
@@ -14,6 +18,7 @@ fn main() {
         "C03" => wire_eng::c03(&args),
         "C12" => wire_eng::c12(&args),
         "C04" => transport_eng::run(&args, "C04"),
+        "C05" => ptfs_eng::c05(&args),
         "C07" => vfs_eng::run(&args, "C07"),
         "C14" => vfs_eng::run(&args, "C14"),
         "C19" => vfs_eng::c19(&args),
